@@ -103,12 +103,27 @@ BigCmpDef(x, y) == IF Sgn(x) # Sgn(y) THEN (IF Sgn(x) < Sgn(y) THEN -1 ELSE 1)
 BigShlDef(x, k) == IF Sgn(x) = 0 THEN x
                    ELSE <<Sgn(x), Zeros(k \div LB) \o MagMulLimbFrom(Mag(x), Pow2(k % LB), 1, 0)>>
 
+\* floor(|x| / 2^k) with the sign of x (truncation towards zero of the magnitude), k >= 0
+RECURSIVE MagShrSmall(_, _, _, _)
+\* divide magnitude m by 2^b (0 <= b < LB), processing limbs from the most significant (index i) down
+MagShrSmall(m, b, i, carry) ==
+    IF i = 0 THEN <<>>
+    ELSE LET cur == carry * BASE + m[i]
+             q   == cur \div Pow2(b)
+             r   == cur % Pow2(b)
+         IN MagShrSmall(m, b, i - 1, r) \o <<q>>
+MagShr(m, k) == LET drop == k \div LB
+                    rest == IF drop >= Len(m) THEN <<>> ELSE SubSeq(m, drop + 1, Len(m))
+                IN StripM(MagShrSmall(rest, k % LB, Len(rest), 0))
+BigShrDef(x, k) == LET mm == MagShr(Mag(x), k) IN IF mm = <<>> THEN BigZero ELSE <<Sgn(x), mm>>
+
 \* accelerated entry points (Java overrides replace these; the definitions are the meaning)
 BigAdd(x, y) == BigAddDef(x, y)
 BigSub(x, y) == BigSubDef(x, y)
 BigMul(x, y) == BigMulDef(x, y)
 BigCmp(x, y) == BigCmpDef(x, y)
 BigShl(x, k) == BigShlDef(x, k)
+BigShr(x, k) == BigShrDef(x, k)
 
 BigLt(x, y) == BigCmp(x, y) < 0
 BigLe(x, y) == BigCmp(x, y) <= 0
@@ -144,6 +159,12 @@ DyCmp(x, y) == LET e == Min2(DyE(x), DyE(y)) IN BigCmp(DyAt(x, e), DyAt(y, e))
 DyLt(x, y) == DyCmp(x, y) < 0
 DyLe(x, y) == DyCmp(x, y) <= 0
 DyEq(x, y) == DyCmp(x, y) = 0
+\* floor of a non-negative dyadic, as a Big
+DyFloorNN(d) == IF DyE(d) >= 0 THEN BigShl(DyB(d), DyE(d)) ELSE BigShr(DyB(d), -DyE(d))
+\* a Big that is known to be small, as a TLC integer (<= 2 limbs)
+BigToInt(x) == Sgn(x) * (IF Len(Mag(x)) = 0 THEN 0 ELSE IF Len(Mag(x)) = 1 THEN Mag(x)[1]
+                         ELSE Mag(x)[1] + BASE * Mag(x)[2])
+BigFitsInt(x) == Len(Mag(x)) <= 2
 DyMax(x, y) == IF DyLe(x, y) THEN y ELSE x
 DyMin(x, y) == IF DyLe(x, y) THEN x ELSE y
 
